@@ -11,6 +11,7 @@ CONSTANTS
   UniqueVals = FALSE
   Ghost = TRUE
   Mut = "none"
+  MaxDie = 8
   EdgeFile = ""
 INIT TInit
 NEXT TNext
